@@ -55,6 +55,8 @@ def parseWorldImpl? (s : String) : Option (List Nat × List Nat) :=
 structure DS where
   ns : NS
   readyImpl : List Nat := []
+  /-- sessions whose exit / failure the NodeServer's supervision handler has processed -/
+  closed : List Nat := []
   hsO : Ordering := .lt
   hsCs : List Conn := []
   hsW : List Link := []
@@ -311,10 +313,35 @@ def stepNS (st : NS) (op impl : String) : NS × StepOut :=
         | _ => []
       (st, { model := m, oracle := orc, nontrivial := true })
     | none => (st, { model := "bad-op" })
-  | ["close", pid] =>
+  | ["close", pid] | ["closef", pid] =>
+    -- exit / failure of a session: the real supervision handler of the NodeServer
     match pid.toNat? with
-    | some pid => (st.close pid, { model := "ok" })
+    | some pid => (st.close pid, { model := if (st.find pid).isSome then "ok" else impl,
+                                   nontrivial := (st.find pid).isSome })
     | none => (st, { model := "bad-op" })
+  | ["residue"] =>
+    let (a, b, c) := st.residue
+    (st, { model := s!"ns={showNats (sortNats a)} ids={showNats (sortNats b)} auth={showNats (sortNats c)}" })
+  | ["fresh", pid, peer, nonce] =>
+    -- a (re)connecting session: register, check_candidate, commit_authenticated, is_elected and
+    -- its own CheckSession
+    match pid.toNat?, nonce.toNat? with
+    | some pid, some nonce =>
+      let alone := (st.sessionsOf peer).all (· == pid)
+      let (st1, r) := st.register pid peer nonce
+      let c := st1.checkCandidate pid
+      let (st2, commit) := match st1.commit pid with
+        | none => (st1, "none")
+        | some (st2, s, l) => (st2, s!"{s} {showNats (sortNats l)}")
+      let post := match st2.postAuthReply pid with
+        | some rep => s!"{st2.isElected pid} {showReply rep}"
+        | none => "false noOther"
+      -- oracle (theorem `reconnection_is_accepted_afresh`): no other session claims this peer,
+      -- so the session must be told there is no other connection, survive its own commit with
+      -- no losers, be elected and continue
+      let orc := if alone && r && impl != "true | noOther | true - | true noOther" then ["reconnection-not-accepted-afresh"] else []
+      (st2, { model := s!"{r} | {showReply c} | {commit} | {post}", oracle := orc, nontrivial := true })
+    | _, _ => (st, { model := "bad-op" })
   | ["visible"] =>
     (st, { model := showNats (sortNats st.listed) })
   | _ => (st, { model := "bad-op" })
@@ -329,8 +356,19 @@ def step (ds : DS) (op impl : String) : DS × StepOut :=
     let ready := if impl == "true" then (pid.toNat?.map (· :: ds.readyImpl)).getD ds.readyImpl else ds.readyImpl
     let orc := if readyOk ns' ready then [] else ["two-ready-sessions-for-one-peer-on-acceptor"]
     ({ ns := ns', readyImpl := ready }, { out with oracle := out.oracle ++ orc })
+  | ["close", pid] | ["closef", pid] =>
+    ({ ds with ns := ns', readyImpl := [], closed := (pid.toNat?.map (· :: ds.closed)).getD ds.closed }, out)
+  | ["residue"] =>
+    -- on the implementation's own answer: nothing of a closed session is left in node_sessions,
+    -- connection_ids or authenticated_sessions
+    let fld := fun (k : String) => ((words impl).findSome? fun w =>
+      if w.startsWith (k ++ "=") then natList? (w.drop (k.length + 1)).toString else none).getD []
+    let orc := if residueOk ds.closed (fld "ns") (fld "ids") (fld "auth") then [] else ["closed-session-left-residue"]
+    ({ ds with ns := ns' }, { out with oracle := out.oracle ++ orc, nontrivial := !ds.closed.isEmpty })
+  | "fresh" :: _ => ({ ds with ns := ns' }, out)
   | "visible" :: _ | "checkc" :: _ | "checks" :: _ | "elect" :: _ | "world" :: _ | "e2e" :: _ | "e2t" :: _ | "e2r" :: _ | "ni" :: _ | "postauth" :: _ => ({ ds with ns := ns' }, out)
-  | _ => ({ ns := ns', readyImpl := [] }, out)
+  | ["ns", _] => ({ ns := ns', readyImpl := [], closed := [] }, out)
+  | _ => ({ ds with ns := ns', readyImpl := [] }, out)
 
 def run (ops impl : Array String) : IO Tally :=
   replay ({ ns := { thisName := "", sessions := [] } } : DS) step ops impl
